@@ -210,7 +210,7 @@ def run(c):
         progs.append(prog)
     progs += programs(rnd, 10 if c.quick else 150)
     deadline = time.time() + (120 if c.quick else 600)   # safety net only: the schedule counts bound the exploration, so the result does not depend on machine load
-    explored = dc.explore_into(runs, c, progs, 25 if c.quick else 250, 6 if c.quick else 40, deadline,
+    explored = dc.explore_into(runs, c, progs, 12 if c.quick else 250, 4 if c.quick else 40, deadline,
                                bound=1 if c.quick else 2, gap_runs=16)
     laps["explore_s"] = round(time.time() - t0 - laps["model+replay_s"], 1)
     dc.validate(c, runs, INVS, describe)
